@@ -403,6 +403,10 @@ def run(facts, rep, tier):
              "markdown_options() accessors return those fields - an action must not re-render the note with default options (refs_extension dropped from every block reference).")
     from . import options
     options.rule_one_options(facts, rep, "C10-R8")
+    rep.rule("C10-R9", "Only the targeted part is rewritten - the front matter stays: the whole-file edit an action resolves to gets the note's recorded front matter back "
+             "(Graph::with_front_matter on every Update before to_document_change); Updates built elsewhere are rendered by Graph::to_markdown / export_key.")
+    from . import frontmatter
+    frontmatter.rule_updates_carry_front_matter(facts, rep, "C10-R9")
 
 class _Conv:
     """Forwards only the instances located in the list/section conversion actions."""
